@@ -11,6 +11,10 @@ theorem tie_h_agent_Status_CorrectRunningStatus : Extracted.Agent.h_agent_Status
 theorem tie_h_agent_Agent_signal : Extracted.Agent.h_agent_Agent_signal = Canon.Agent.h_agent_Agent_signal := by decide +kernel
 theorem tie_h_agent_Agent_Signal : Extracted.Agent.h_agent_Agent_Signal = Canon.Agent.h_agent_Agent_Signal := by decide +kernel
 theorem tie_h_agent_Agent_HandleHTTP : Extracted.Agent.h_agent_Agent_HandleHTTP = Canon.Agent.h_agent_Agent_HandleHTTP := by decide +kernel
+theorem tie_h_rest_agent_agent_agent_go : Extracted.Agent.h_rest_agent_agent_agent_go = Canon.Agent.h_rest_agent_agent_agent_go := by decide +kernel
+theorem tie_h_rest_agent_persistence_model_status_go : Extracted.Agent.h_rest_agent_persistence_model_status_go = Canon.Agent.h_rest_agent_persistence_model_status_go := by decide +kernel
+theorem tie_h_rest_agent_persistence_model_node_go : Extracted.Agent.h_rest_agent_persistence_model_node_go = Canon.Agent.h_rest_agent_persistence_model_node_go := by decide +kernel
+theorem tie_h_rest_agent_client_client_go : Extracted.Agent.h_rest_agent_client_client_go = Canon.Agent.h_rest_agent_client_client_go := by decide +kernel
 
 #print axioms tie_h_agent_Agent_Status
 #print axioms tie_h_agent_Agent_Run
@@ -20,5 +24,9 @@ theorem tie_h_agent_Agent_HandleHTTP : Extracted.Agent.h_agent_Agent_HandleHTTP 
 #print axioms tie_h_agent_Agent_signal
 #print axioms tie_h_agent_Agent_Signal
 #print axioms tie_h_agent_Agent_HandleHTTP
+#print axioms tie_h_rest_agent_agent_agent_go
+#print axioms tie_h_rest_agent_persistence_model_status_go
+#print axioms tie_h_rest_agent_persistence_model_node_go
+#print axioms tie_h_rest_agent_client_client_go
 
 end BdModel.Tie.Agent
